@@ -20,6 +20,16 @@ EXTRA = [
     "SELECT * FROM t WHERE a BETWEEN 1 AND 2 AND NOT b", "SELECT DISTINCT a, b AS c FROM t GROUP BY a HAVING count(*) > 1",
     "SELECT current_date, CURRENT_USER FROM t", "SELECT fn.ns(a) FROM t", "SHOW TABLES", "CREATE MODEL m PREDICT y", "USE x",
 ]
+# unsupported / rarely rendered expression snippets embedded in every statement frame
+SNIPPETS = ["cast(a AS foo)", "count(DISTINCT a, b)", "-(1, 2)", "(a, b) IN ((1, 2), (3, 4))", "a -> 'k'", "x.y.z.w", "fn.ns(a)", "a NOT IN (1)",
+            "substring(a FROM 2)", "CASE a WHEN 1 THEN (1, 2) END", "INTERVAL '1 day'", "@v", "?", "a::unknowntype"]
+FRAMES = ["SELECT {e} FROM t", "SELECT a FROM t WHERE {e} > 0", "SELECT a FROM t GROUP BY a HAVING {e} > 0", "SELECT a FROM t ORDER BY {e} LIMIT 2 OFFSET 1",
+          "SELECT {e} FROM t UNION SELECT b FROM u ORDER BY 1 LIMIT 2", "SELECT b FROM u UNION ALL SELECT {e} FROM t LIMIT 3 OFFSET 1",
+          "SELECT b FROM u INTERSECT SELECT {e} FROM t ORDER BY 1", "SELECT * FROM (SELECT {e} AS c FROM t) AS s ORDER BY c LIMIT 1",
+          "WITH w AS (SELECT {e} AS c FROM t) SELECT c FROM w", "SELECT x.a FROM t AS x JOIN u AS y ON {e} = y.b", "SELECT a, ({e}) AS k FROM t AS q ORDER BY a",
+          "INSERT INTO t (a) SELECT {e} FROM u", "UPDATE t SET a = {e} WHERE b = 1", "DELETE FROM t WHERE {e} = 1", "SELECT coalesce({e}, 1) AS c, a AS d FROM t",
+          "SELECT a FROM t WHERE a IN (SELECT {e} FROM u ORDER BY 1 LIMIT 1)", "CREATE TABLE x.t2 (SELECT {e} AS c FROM t)"]
+EXTRA = EXTRA + [f.format(e=e) for f in FRAMES for e in SNIPPETS]
 _trees = None
 
 
